@@ -88,7 +88,7 @@ def outgoing(req, k, fence=False):
     request it is answering (so behaviours follow requests, whatever the order of the POSTs)"""
     from chuk_mcp.protocol.messages.json_rpc_message import JSONRPCMessage
     if fence:
-        return JSONRPCMessage(jsonrpc="2.0", id=FENCE_ID, method="ping", params={"k": -1})
+        return JSONRPCMessage(jsonrpc="2.0", id=FENCE_ID, method="ping", params={"k": k})
     if req.get("garbage") is not None:
         return GARBAGE[req["garbage"] % len(GARBAGE)]
     rid = G.idval(req["id"])
@@ -147,7 +147,23 @@ def make_params(case, url=None):
     return StreamableHTTPParameters(url=url or URL, timeout=cfg.get("timeout", 5.0), session_id=case.get("session0"), **kw)
 
 
-async def _one_round(case, params, make_client_patch, start_delay=0):
+def connection_case(case, label):
+    """the case as connection `label` sees it: the server issues every connection its own session ids"""
+    if not label:
+        return case
+    c = copy.deepcopy(case)
+    for r in c["reqs"]:
+        b = r.get("b")
+        if b is not None and b.get("sess") is not None:
+            b["sess"] = b["sess"] + "-" + label
+    return c
+
+
+def _params_snapshot(params):
+    return {"headers": [[k, v] for k, v in (params.headers or {}).items()], "session_id": params.session_id}
+
+
+async def _one_round(case, params, make_client_patch, start_delay=0, koff=0):
     import contextlib
     import json
     import anyio
@@ -181,6 +197,10 @@ async def _one_round(case, params, make_client_patch, start_delay=0):
         seq["n"] += 1
         try:
             k = json.loads(request.content)["params"]["k"]
+            if k >= 0:
+                k -= koff
+            elif k <= -1000:
+                k = -1            # the fence of a connection that shares its server with others
         except Exception:
             k = None
         rec = {"k": k, "sess": request.headers.get("mcp-session-id"), "a": seq["n"], "d": None,
@@ -239,14 +259,14 @@ async def _one_round(case, params, make_client_patch, start_delay=0):
                 await vsleep(reqs[k].get("delay", 0) + start_delay)
                 if transport is not None and reqs[k].get("wait") and reqs[k].get("id") is not None:
                     asyncio.ensure_future(waiter(k))
-                await wr.send(outgoing(reqs[k], k))
+                await wr.send(outgoing(reqs[k], k + koff))
 
             async def send_all():
                 async with anyio.create_task_group() as tg:
                     for k in range(len(reqs)):
                         tg.start_soon(send_one, k)
                 if leave is None and case.get("close_rd_after") is None:
-                    await wr.send(outgoing(None, -1, fence=True))
+                    await wr.send(outgoing(None, -1 if not koff else -1000 - koff, fence=True))
                     if case.get("close_wr"):
                         await wr.aclose()          # the caller is done sending: what is queued still has to go out
 
@@ -338,11 +358,52 @@ async def _drive(case, make_client_patch):
         if n <= 1:
             params = make_params(case)
             cfg_headers = [[k, v] for k, v in (params.headers or {}).items()]
+            before = _params_snapshot(params)
             obs = await _one_round(case, params, make_client_patch)
             obs["cfg_headers"] = cfg_headers
             if case.get("reuse"):
-                # the same parameters object used for a second connection
-                obs["round2"] = await _one_round(case, params, make_client_patch)
+                # the same parameters object used for a second connection (a reconnect); the server issues it other ids
+                obs["round2"] = await _one_round(connection_case(case, "r2"), params, make_client_patch)
+                obs["round2"]["label"] = "r2"
+            obs["params_changed"] = _params_snapshot(params) != before
+            return obs
+        if case.get("share_params"):
+            # several connections built from ONE parameters object, alive at the same time, one scripted server:
+            # the connections are told apart by the request numbers they use
+            params = make_params(case)
+            before = _params_snapshot(params)
+            handlers = {}
+
+            async def dispatch1(request):
+                import json as _json
+                try:
+                    k = _json.loads(request.content)["params"]["k"]
+                    j = (k // 1000) if k >= 0 else (0 if k > -1000 else (-k - 1000) // 1000)
+                except Exception:
+                    j = 0
+                return await handlers[j](request)
+
+            def register_j(j):
+                @contextlib.contextmanager
+                def register(handler):
+                    handlers[j] = handler
+                    yield
+                return register
+
+            results = [None] * n
+
+            async def one1(j):
+                lab = f"c{j}" if j else ""
+                results[j] = await _one_round(connection_case(case, lab), params, register_j(j), start_delay=2 * j, koff=1000 * j)
+                results[j]["label"] = lab
+
+            with make_client_patch(dispatch1):
+                async with anyio.create_task_group() as tg:
+                    for j in range(n):
+                        tg.start_soon(one1, j)
+            obs = results[0]
+            obs["others"] = results[1:]
+            obs["params_changed"] = _params_snapshot(params) != before
             return obs
         # several transports alive in one process, used concurrently with EQUAL ids: one scripted
         # server per instance (told apart by host name), one patch for all
